@@ -662,6 +662,9 @@ func (t *Task) leavesOf(T types.Type) []leaf {
 			}
 			for i := 0; i < st.NumFields(); i++ {
 				f := st.Field(i)
+				if f.Name() == "_" {
+					continue
+				}
 				walk(f.Type(), path+"."+f.Name(), depth+1)
 			}
 		case KSlice:
@@ -739,6 +742,10 @@ func (t *Task) loadAt(s *State, prefix, path, ref, idx string, T types.Type) Val
 		v := Val{K: KStruct, T: T}
 		for i := 0; i < st.NumFields(); i++ {
 			f := st.Field(i)
+			if f.Name() == "_" {
+				v.Fields = append(v.Fields, Val{K: KUnit, T: f.Type()})
+				continue
+			}
 			v.Fields = append(v.Fields, t.loadAt(s, prefix, path+"."+f.Name(), ref, idx, f.Type()))
 		}
 		return v
@@ -772,6 +779,9 @@ func (t *Task) storeAt(s *State, prefix, path, ref, idx string, T types.Type, v 
 		}
 		for i := 0; i < st.NumFields(); i++ {
 			f := st.Field(i)
+			if f.Name() == "_" {
+				continue
+			}
 			t.storeAt(s, prefix, path+"."+f.Name(), ref, idx, f.Type(), v.Fields[i])
 		}
 	case KSlice:
@@ -811,6 +821,10 @@ func (t *Task) zeroValue(T types.Type) Val {
 			return v
 		}
 		for i := 0; i < st.NumFields(); i++ {
+			if st.Field(i).Name() == "_" {
+				v.Fields = append(v.Fields, Val{K: KUnit, T: st.Field(i).Type()})
+				continue
+			}
 			v.Fields = append(v.Fields, t.zeroValue(st.Field(i).Type()))
 		}
 		return v
@@ -845,6 +859,10 @@ func (t *Task) freshValue(pc, hint string, T types.Type) Val {
 			return v
 		}
 		for i := 0; i < st.NumFields(); i++ {
+			if st.Field(i).Name() == "_" {
+				v.Fields = append(v.Fields, Val{K: KUnit, T: st.Field(i).Type()})
+				continue
+			}
 			v.Fields = append(v.Fields, t.freshValue(pc, hint+"."+st.Field(i).Name(), st.Field(i).Type()))
 		}
 		return v
